@@ -502,6 +502,8 @@ structure OpRec where
   result : String
   /-- broker set-up commands issued since the previous operation -/
   setup : List (List String) := []
+  /-- harness notes recorded during the operation (e.g. `partial-frame <host> <n>`) -/
+  notes : List (List String) := []
 deriving Repr
 
 /-- group trace lines into operations: OP …, events …, RESULT … -/
@@ -511,8 +513,11 @@ def parseOps (lines : List String) : List OpRec :=
     | [], _, _, _, acc => acc.reverse
     | (l, next) :: rest, cur, su, n, acc =>
       match toksOf l, cur with
-      | "OP" :: t, _ => go rest (some (n, t, [])) su (n + 1) acc
-      | "RESULT" :: r, some (i, t, evs) => go rest none [] n (⟨i, t, evs.reverse, " ".intercalate r, su.reverse⟩ :: acc)
+      | "OP" :: t, _ => go rest (some (n, t, [])) (su.filter fun x => x.head? != some "NOTE") (n + 1) acc
+      | "RESULT" :: r, some (i, t, evs) =>
+        go rest none [] n (⟨i, t, evs.reverse, " ".intercalate r, (su.filter fun x => x.head? != some "NOTE").reverse,
+          ((su.filter fun x => x.head? == some "NOTE").map (·.drop 1)).reverse⟩ :: acc)
+      | "NOTE" :: t, some _ => go rest cur (("NOTE" :: t) :: su) n acc
       | ["CONNECT", h, ok], some (i, t, evs) =>
         match fromHex h with
         | some h => go rest (some (i, t, .connect h (ok == "ok") :: evs)) su n acc
